@@ -382,6 +382,8 @@ class CParser:
                 while not isinstance(decls_0_tail, c_ast.TypeDecl):
                     decls_0_tail = decls_0_tail.type
                 if decls_0_tail.declname is None:
+                    if not isinstance(spec["type"][-1], c_ast.IdentifierType):
+                        self._parse_error("Invalid declaration", decls_0_tail.coord)
                     decls_0_tail.declname = spec["type"][-1].names[0]
                     del spec["type"][-1]
 
@@ -1073,6 +1075,11 @@ class CParser:
         self._expect("LPAREN")
         typ = self._parse_type_name()
         self._expect("RPAREN")
+        if isinstance(typ.type, (c_ast.ArrayDecl, c_ast.FuncDecl)):
+            # C11 6.7.2.4p3; such a type also has no place for the qualifier
+            self._parse_error(
+                "_Atomic(...) cannot specify an array or function type", typ.coord
+            )
         typ.quals.append("_Atomic")
         return typ
 
